@@ -19,6 +19,27 @@ use super::Result;
 pub struct Param {
     internal: bool,
     value: String,
+    fulltext: bool,
+}
+
+///
+/// The text given to search() is data, not a full text query: every word is passed as a quoted string,
+/// so that no character of it ( - * " ( ) : ^ AND OR NOT ...) is read as full text query syntax and rejected by the database engine
+///
+fn fulltext_terms(text: &str) -> String {
+    let mut query = String::new();
+    for term in text.split_whitespace() {
+        if !query.is_empty() {
+            query.push(' ');
+        }
+        query.push('"');
+        query.push_str(&term.replace('"', "\"\""));
+        query.push('"');
+    }
+    if query.is_empty() {
+        query.push_str("\"\"");
+    }
+    query
 }
 
 #[derive(Debug, Default)]
@@ -31,18 +52,35 @@ pub struct SingleQuery {
 impl SingleQuery {
     fn add_param(&mut self, value: String, internal: bool) -> String {
         if internal {
-            self.var_order.push(Param { internal, value });
+            self.var_order.push(Param {
+                internal,
+                value,
+                fulltext: false,
+            });
             format!("?{}", self.var_order.len())
         } else {
             for i in 0..self.var_order.len() {
-                let p = &self.var_order[i].value;
-                if value.eq(p) {
+                let p = &self.var_order[i];
+                if value.eq(&p.value) && !p.fulltext {
                     return format!("?{}", i + 1);
                 }
             }
-            self.var_order.push(Param { internal, value });
+            self.var_order.push(Param {
+                internal,
+                value,
+                fulltext: false,
+            });
             format!("?{}", self.var_order.len())
         }
+    }
+
+    fn add_fulltext_param(&mut self, value: String, internal: bool) -> String {
+        self.var_order.push(Param {
+            internal,
+            value,
+            fulltext: true,
+        });
+        format!("?{}", self.var_order.len())
     }
 
     pub fn build(entity: &EntityQuery) -> Result<Self> {
@@ -70,7 +108,22 @@ impl SingleQuery {
 
         for var in &self.var_order {
             if var.internal {
-                v.push(Box::new(var.value.clone()));
+                if var.fulltext {
+                    v.push(Box::new(fulltext_terms(&var.value)));
+                } else {
+                    v.push(Box::new(var.value.clone()));
+                }
+            } else if var.fulltext {
+                match params.params.get(&var.value) {
+                    Some(ParamValue::String(e)) => v.push(Box::new(fulltext_terms(e))),
+                    Some(_) => {
+                        return Err(Error::Query(format!(
+                            "search parameter '{}' must be a String",
+                            &var.value
+                        )))
+                    }
+                    None => return Err(Error::MissingParameter(String::from(&var.value))),
+                }
             } else {
                 let para = params.params.get(&var.value);
                 if let Some(val) = para {
@@ -921,9 +974,11 @@ pub fn get_search_filter(
     let mut q = String::new();
     if let Some(query) = &params.fulltext_search {
         let value = match query {
-            FieldValue::Variable(var) => prepared_query.add_param(String::from(var), false),
+            FieldValue::Variable(var) => {
+                prepared_query.add_fulltext_param(String::from(var), false)
+            }
             FieldValue::Value(val) => match val {
-                ParamValue::String(s) => prepared_query.add_param(String::from(s), true),
+                ParamValue::String(s) => prepared_query.add_fulltext_param(String::from(s), true),
                 _ => unreachable!(),
             },
         };
